@@ -300,7 +300,16 @@ Next == \/ \E c \in Conns : RTop(c) \/ RFill(c) \/ RRead(c) \/ RDemux(c) \/ RDra
         \/ StopStart \/ StopNext \/ StopInt
 
 Spec == Init /\ [][Next]_vars
-FairSpec == Spec /\ WF_vars(Next)
+(* fairness: every goroutine of the router keeps running; the environment (packets arriving,
+   BFD timers firing, Shutdown) is not forced to do anything *)
+FairSpec == /\ Spec
+            /\ \A c \in Conns : WF_vars(RTop(c) \/ RFill(c) \/ RDemux(c) \/ RDrain(c))
+            /\ \A c \in Conns : WF_vars(RRead(c) /\ ~run[c])
+            /\ \A p \in Procs : WF_vars(PTake(p) \/ PDone(p))
+            /\ \A s \in Slows : WF_vars(STake(s) \/ SDone(s))
+            /\ WF_vars(ITake \/ IDone \/ IStop \/ IDrain)
+            /\ \A c \in Conns : WF_vars(SndTop(c) \/ SndTake(c) \/ SndWrite(c) \/ SndPut(c))
+            /\ \A k \in BfdConns : WF_vars(BSend(k))
 
 -----------------------------------------------------------------------------
 (* Properties *)
@@ -375,7 +384,8 @@ StoppedHome == stp = NC + 2 =>
                  /\ \A c \in Conns : RecvIdx(c) = {}
                  /\ (StopMode = "quiet" => \A b \in Bufs : pool[b] = 1 \/ Stranded(b))
 
-(* Liveness (FairSpec, StopMode = "none"): with finitely many packets every buffer comes home. *)
+(* Liveness (FairSpec, StopMode = "none"): whatever the environment does, every buffer eventually
+   stays in the pool or in a receiver's pre-fetch: no buffer is held forever by a stage. *)
 AllHome == \A b \in Bufs : pool[b] = 1 \/ Prefetched(b)
 EventuallyHome == <>[]AllHome
 
